@@ -56,7 +56,7 @@ ASSUMPTIONS = ['Python int = Z, // and % = Z.div / Z.modulo (floor)',
                'NumPy does after the column key was made ascending); arrays are only generated with ascending column keys, because the property does not '
                'fix the pairing otherwise',
                'labelled values: an addressed cell whose label the value lacks receives fill_value through iloc/loc/getitem and keeps its value through bloc',
-               'mask does not propagate the name (documented in series.py:2166); names are compared for every other interface',
+               'mask does not propagate the name (documented in Series._extract_iloc_mask, series.py:1450); names are compared for every other interface',
                'oracle conv_val for astype cells: int/bool -> float, bool -> int, anything -> object',
                'Frame.drop with a column key on a Frame without blocks is deliberately rejected (IndexError) and not generated']
 TRUSTED = ['NumPy broadcasting of an unlabelled value to the selection shape (np.broadcast_to in the harness)',
